@@ -438,17 +438,15 @@ Qed.
    on its partition *)
 Lemma afun_val_perm d sp rows rows' f g r :
   Permutation rows rows' ->
-  (windowed f = true \/ (exists n dv, f = FLag n dv) \/ (exists n dv, f = FLead n dv) ->
-     total_on (row_lt d sp) (part_of d sp rows r) = true) ->
+  (needs_order f = true -> total_on (row_lt d sp) (part_of d sp rows r) = true) ->
   afun_val d sp rows f g r = afun_val d sp rows' f g r.
 Proof.
   intros P T.
-  assert (HS : windowed f = true \/ (exists n dv, f = FLag n dv) \/ (exists n dv, f = FLead n dv) ->
-               sorted_part d sp rows r = sorted_part d sp rows' r).
+  assert (HS : needs_order f = true -> sorted_part d sp rows r = sorted_part d sp rows' r).
   { intros H. apply sorted_part_perm_eq; [exact P | apply T; exact H]. }
-  destruct f; try (rewrite !afun_val_windowed by reflexivity; unfold win_rows; rewrite HS by (left; reflexivity); reflexivity).
-  - cbn [afun_val]. rewrite HS by (right; left; eauto). reflexivity.
-  - cbn [afun_val]. rewrite HS by (right; right; eauto). reflexivity.
+  destruct f; try (rewrite !afun_val_windowed by reflexivity; unfold win_rows; rewrite HS by reflexivity; reflexivity).
+  - cbn [afun_val]. rewrite HS by reflexivity. reflexivity.
+  - cbn [afun_val]. rewrite HS by reflexivity. reflexivity.
   - cbn [afun_val]. rewrite (filter_length_perm _ _ _ (part_of_perm d sp _ _ r P)). reflexivity.
   - cbn [afun_val]. rewrite (agg_sum_perm _ _ (Permutation_map g (part_of_perm d sp _ _ r P))). reflexivity.
 Qed.
@@ -491,17 +489,17 @@ Proof.
 Qed.
 
 Lemma analytic_row_perm d sp f rows' r :
-  Permutation (d_rows d) rows' -> total_order d sp = true -> In r (d_rows d) ->
+  Permutation (d_rows d) rows' -> (needs_order f = true -> total_order d sp = true) -> In r (d_rows d) ->
   analytic_row (mkD (d_ids d) (d_ms d) rows') sp f r = analytic_row d sp f r.
 Proof.
   intros P T Hin. unfold analytic_row. cbn [d_ms d_rows]. f_equal. apply mapM_ext_res. intros j.
   rewrite (afun_val_names (mkD (d_ids d) (d_ms d) rows') d) by reflexivity.
-  symmetry. apply afun_val_perm; [exact P|]. intros _.
+  symmetry. apply afun_val_perm; [exact P|]. intros N. specialize (T N).
   unfold total_order in T. rewrite forallb_forall in T. apply T. exact Hin.
 Qed.
 
 Lemma d_analytic_perm f sp d rows' d1 :
-  Permutation (d_rows d) rows' -> total_order d sp = true ->
+  Permutation (d_rows d) rows' -> (needs_order f = true -> total_order d sp = true) ->
   d_analytic f sp d = Ok d1 ->
   exists d2, d_analytic f sp (mkD (d_ids d) (d_ms d) rows') = Ok d2 /\
              d_ids d2 = d_ids d1 /\ d_ms d2 = d_ms d1 /\ Permutation (d_rows d1) (d_rows d2).
@@ -515,7 +513,7 @@ Qed.
 
 (* an error does not depend on the input order either *)
 Lemma d_analytic_perm_err f sp d rows' c :
-  Permutation (d_rows d) rows' -> total_order d sp = true ->
+  Permutation (d_rows d) rows' -> (needs_order f = true -> total_order d sp = true) ->
   d_analytic f sp d = Err c -> exists c', d_analytic f sp (mkD (d_ids d) (d_ms d) rows') = Err c'.
 Proof.
   intros P T H. unfold d_analytic in H |- *. apply bind_err in H. destruct H as [H|[x [_ H]]]; [|discriminate].
@@ -550,18 +548,18 @@ Lemma colv_names d d' : d_ids d = d_ids d' -> d_ms d = d_ms d' -> colv d = colv 
 Proof. destruct d, d'; simpl; intros -> ->. reflexivity. Qed.
 
 Lemma calc_analytic_row_perm d name f sp operand rows' r :
-  Permutation (d_rows d) rows' -> total_order d sp = true -> In r (d_rows d) ->
+  Permutation (d_rows d) rows' -> (needs_order f = true -> total_order d sp = true) -> In r (d_rows d) ->
   calc_analytic_row (mkD (d_ids d) (d_ms d) rows') name f sp operand r = calc_analytic_row d name f sp operand r.
 Proof.
   intros P T Hin. unfold calc_analytic_row. cbn [d_ms d_rows].
   rewrite (afun_val_names (mkD (d_ids d) (d_ms d) rows') d) by reflexivity.
   rewrite (colv_names (mkD (d_ids d) (d_ms d) rows') d) by reflexivity.
-  f_equal. symmetry. apply afun_val_perm; [exact P|]. intros _.
+  f_equal. symmetry. apply afun_val_perm; [exact P|]. intros N. specialize (T N).
   unfold total_order in T. rewrite forallb_forall in T. apply T. exact Hin.
 Qed.
 
 Lemma d_calc_analytic_perm d name f sp operand rows' d1 :
-  Permutation (d_rows d) rows' -> total_order d sp = true ->
+  Permutation (d_rows d) rows' -> (needs_order f = true -> total_order d sp = true) ->
   d_calc_analytic d name f sp operand = Ok d1 ->
   exists d2, d_calc_analytic (mkD (d_ids d) (d_ms d) rows') name f sp operand = Ok d2 /\
              d_ids d2 = d_ids d1 /\ d_ms d2 = d_ms d1 /\ Permutation (d_rows d1) (d_rows d2).
@@ -575,7 +573,7 @@ Proof.
 Qed.
 
 Lemma d_calc_analytic_perm_err d name f sp operand rows' c :
-  Permutation (d_rows d) rows' -> total_order d sp = true ->
+  Permutation (d_rows d) rows' -> (needs_order f = true -> total_order d sp = true) ->
   d_calc_analytic d name f sp operand = Err c ->
   exists c', d_calc_analytic (mkD (d_ids d) (d_ms d) rows') name f sp operand = Err c'.
 Proof.
@@ -734,7 +732,7 @@ Lemma rank_ratio_perm d sp rows rows' g r :
   afun_val d sp rows FRank g r = afun_val d sp rows' FRank g r /\
   afun_val d sp rows FRatio g r = afun_val d sp rows' FRatio g r.
 Proof.
-  intros P. split; apply afun_val_perm; auto; intros [H|[[n [dv H]]|[n [dv H]]]]; discriminate.
+  intros P. split; apply afun_val_perm; auto; discriminate.
 Qed.
 
 (* =============================================================== the headline statement in one piece (dataset level, rows frame) *)
